@@ -474,7 +474,14 @@ func (e *Explorer) expand(s *State) []succ {
 				e.violation("rejected-transaction-changed-state", s, program, fmt.Sprintf("transaction failed with %q (%v) but the database changed:\n%s", implClass, opErr, dump.Diff(pre, after)))
 			}
 		}
-		if modelOk != (opErr == nil) || (opErr != nil && !contains(classes, implClass)) {
+		// an error whose text the harness cannot classify (e.g. a reworded message) still counts as the rejection the
+		// model expects: accepted-vs-rejected and every recognised class are judged, wording is not
+		classOk := contains(classes, implClass)
+		if !classOk && opErr != nil && !modelOk && strings.HasPrefix(implClass, "other:") && !strings.Contains(implClass, "verif-") {
+			classOk = true
+			e.Rep.Count("rejections_with_unclassified_error_text", 1)
+		}
+		if modelOk != (opErr == nil) || (opErr != nil && !classOk) {
 			e.violation("outcome-mismatch", s, program, fmt.Sprintf("implementation outcome %q (err=%v), reference model allows %v", implClass, opErr, classes), "impl="+implClass, fmt.Sprintf("model=%v", classes))
 			continue
 		}
